@@ -182,8 +182,10 @@ class LinearOperator(Operator[torch.Tensor, tuple[torch.Tensor]]):
             ).all():
                 break
 
-            # normalize vector
-            vector = vector_new / torch.linalg.vector_norm(vector_new, dim=dim, keepdim=True)
+            # normalize vector; if A^H A v is exactly zero, v is in the kernel of the operator: keep v (the estimate
+            # stays zero) instead of dividing zero by zero
+            norm_vector_new = torch.linalg.vector_norm(vector_new, dim=dim, keepdim=True)
+            vector = torch.where(norm_vector_new > 0, vector_new / norm_vector_new, vector)
             op_norm_old = op_norm
 
             if callback is not None:
